@@ -80,7 +80,7 @@ def main():
         for k in sorted(os.listdir(os.path.join(SRC, prop))):
             if os.path.isdir(os.path.join(SRC, prop, k)) and not os.path.exists(os.path.join(DST, '%s_%s' % (prop, k), 'meta.json')):
                 todo.append((prop, k))
-    with ThreadPoolExecutor(max_workers=4) as ex:
+    with ThreadPoolExecutor(max_workers=int(os.environ.get("SEEDVERIFY_J", "4"))) as ex:
         for r in ex.map(lambda a: verify(*a), todo):
             print(json.dumps(r))
             sys.stdout.flush()
